@@ -5,6 +5,13 @@ are empty).  Workload: generated programs of event types with success/failure/no
 a set of handlers drawn from {return value, return None, raise, generator yielding k values (some None) then finishing
 (optionally `return v`), generator raising at step j}; handlers fire nested events of higher types; several events are in
 flight at once.  Fault dimension: the raising handlers (kind, placement and step from the tape).
+A result (returned or yielded) is a scalar or a LIST (flat, empty or nested; its elements are fresh scalars): a list is one
+result like any other, so `[1, 2]` followed by `3` must read `[[1, 2], 3]` and a lone `[1, 2]` must read `[1, 2]`.  Every
+invocation hands the library a fresh copy of the list; the oracle compares with the pristine one.  As the value of a lone
+list result and the value of several results are both lists, the oracle accepts a value if EITHER reading fits the log.
+A plain handler may also `return self.fire(<event of a higher type>)`, i.e. hand on the Value of a nested fire as its result (the
+idiom circuits.web and circuits.node rely on): the event must still hold every other result, the Value may be held as the object
+or resolved, and the errors flag must be set if a handler of the event itself raised.
 
 Oracle (ghost state written by the generated handlers themselves: what they produced, in which order, when they finished):
 online at the moment a feedback event is *fired* (the generated components override the public fire() to see that moment)
@@ -14,6 +21,7 @@ from simcore import world
 from simcore.runner import HarnessLimit
 
 from circuits import BaseComponent, Event, handler
+from circuits.core.values import Value
 
 ID = 'C04'
 LEVEL = 'exploration'
@@ -24,20 +32,29 @@ LEVEL_TEXT = ('seeded exploration of generated programs (handler shapes x feedba
 LEVEL_NOTE = ('trusted: the ghost log written by the generated handlers (what was produced/raised and when each handler finished), the '
               'fire() override of the generated components as "moment of firing", the global observer handler, CPython generators')
 RULE = ('each run = generated program (1-4 event types with success/failure/notify/success_channels flags, 0-4 handlers per type out of '
-        '{return v, return None, raise, generator, generator raising at step j}, nested fires, 1-3 components) + history of external '
+        '{return v, return None, raise, generator, generator raising at step j, return the Value of a nested fire}; v / yielded values scalars or flat, empty and nested '
+        'lists; nested fires, 1-3 components) + history of external '
         'fires / tick() / flush() + handler/task order, all from one seeded tape; non-trivial = at least one handler raised, at least one '
         'generator handler was suspended over a tick, and at least one dispatched event requested success or failure feedback; '
         'distinct = distinct digest of the full fire/handler-step/feedback log')
 STATE_MEASURE = ('per dispatched event: (#plain handlers, #generator handlers, #plain raisers, #generator raisers, success, failure, '
-                 'notify kind, #success_channels, min(#results,4))')
+                 'notify kind, #success_channels, min(#results,4), min(#list results,2), first result is a list, '
+                 '#results that are the Value of a nested fire (max 2))')
 REAL = ['circuits.core.manager.Manager (fire/_fire/flush/tick/_dispatcher/_eventDone/processTask/registerTask)',
         'circuits.core.values.Value', 'circuits.core.events.Event/exception', 'circuits.core.components.BaseComponent',
         'circuits.core.handlers.handler']
 STUBBED = ['handler tie-break order and task stepping order (decided by the tape through the Manager.getHandlers / _tasks seams)',
            'stderr of circuits.core (captured)']
 ASSUMPTIONS = [
-    'results are unique scalars (int/str/bool/float, including falsy ones); lists, Values and generators as results are excluded (call/wait is C06)',
-    'the value a generator handler passes to `return` is not a yielded value: the oracle accepts it being recorded or dropped',
+    'results are unique scalars (int/str/bool/float, including falsy ones), lists (flat / empty / nested) of unique scalars, or the Value '
+    'of an event the handler has just fired (plain handlers only); generators as results are excluded (call/wait is C06)',
+    'a Value as a result: the statement does not say how it is held, so the Value object itself or what it resolves to at quiescence are '
+    'both accepted, and nothing is demanded for it while the nested event has no result; the errors flag of the outer event must be set '
+    'when one of its OWN handlers raised, and may be set or clear when only a handler of the nested event raised',
+    'a value that is a list is accepted when it fits the production log either as "the several results" or as "the single result, '
+    'which is itself a list"; that the library modifies the list object a handler returned is not judged (the statement is silent)',
+    'the value a generator handler passes to `return` is not a yielded value: the oracle accepts it being recorded or dropped '
+    '(it is never the empty list, the only result that may occur more than once in a run)',
     'an event without any non-None result may hold None or an empty list',
     'the third element of the error triple (traceback) is not inspected; the first two must be the type and the very exception instance raised',
     '`<name>_failure` events are counted (one per raising handler iff requested, none otherwise); their arguments are not inspected',
@@ -47,13 +64,20 @@ ASSUMPTIONS = [
 ]
 PROBES = ['raise-plain', 'raise-generator', 'generator-suspended', 'plain-raise+generator', 'success-fired', 'failure-fired',
           'success-withheld', 'nested-fire', 'nested-fire-from-task', 'multi-inflight', 'falsy-result', 'list-value', 'scalar-value',
-          'none-yield', 'generator-return-value', 'handler-after-raiser', 'two-raisers', 'success-channels', 'notify']
+          'none-yield', 'generator-return-value', 'handler-after-raiser', 'two-raisers', 'success-channels', 'notify',
+          'list-result-returned', 'list-result-yielded', 'list-result-empty', 'list-result-nested', 'list-result-single',
+          'list-result-first-of-several', 'list-result-after-other', 'list-result-after-error-triple',
+          'nested-value-result', 'nested-value-result-single', 'nested-value-result+more', 'nested-value-result+raiser',
+          'nested-value-result-raised-below']
 TIERS = {
     'quick': dict(runs=70000, wall=35, chunk=250, cfg=dict(max_types=4, max_handlers=4, max_ops=8, max_events=14)),
     'thorough': dict(runs=2500000, wall=600, chunk=500, cfg=dict(max_types=6, max_handlers=5, max_ops=16, max_events=30)),
 }
 
 KEY_DEFECT = 'C04/success/fired-although-raised/plain-raise+generator'
+KEY_LIST = 'C04/value/list-result-flattened'      # first result of an event is a list, later results are appended INTO it
+KEY_NEST_ERRORS = 'C04/errors-flag/not-set/nested-value-result'     # a handler returning the Value of a nested fire clears the flag
+KEY_NEST_LOST = 'C04/value/results-lost/nested-value-result'        # ... and makes the next result replace everything held so far
 HPRIOS = [0, 0, 1, -1, 2]
 DRAIN_CAP = 300
 
@@ -78,13 +102,31 @@ class Abort(BaseException):
 FAULTS = (Boom, Abort)
 
 
+def _eq(a, b):
+    """Equality that also compares the types (1 != True != 1.0), element-wise through lists."""
+    if type(a) is not type(b):
+        return False
+    if isinstance(a, list):
+        return len(a) == len(b) and all(_eq(x, y) for x, y in zip(a, b))
+    return a == b
+
+
+def _fresh(v):
+    """What a handler hands to the library: the scalar itself, a new copy of a list (the library may keep and modify it)."""
+    return [_fresh(x) for x in v] if isinstance(v, list) else v
+
+
 def _same(o, exp):
     if exp[0] == 'V':
-        return type(o) is type(exp[1]) and o == exp[1]
+        return _eq(o, exp[1])
     return isinstance(o, tuple) and len(o) == 3 and o[0] is type(exp[1]) and o[1] is exp[1]
 
 
 def _show(o):
+    if isinstance(o, Value):
+        return '<Value of e#%s>' % (getattr(o.event, 'sim_id', '?'),)
+    if isinstance(o, list):
+        return '[' + ', '.join(_show(x) for x in o) + ']'
     if isinstance(o, tuple) and len(o) == 3 and isinstance(o[1], BaseException):
         return '<error triple %r>' % (o[1],)
     return repr(o)
@@ -95,6 +137,8 @@ def run_one(ctx):
     world.reset(ctx)
     cfg = ctx.cfg
     avoid_defect = KEY_DEFECT in ctx.avoid
+    avoid_list = KEY_LIST in ctx.avoid
+    avoid_nest = KEY_NEST_ERRORS in ctx.avoid or KEY_NEST_LOST in ctx.avoid
     st = dict(t=0, budget=cfg['max_events'], next_eid=0, faults=0, first_fault_t=None, inflight=0, susp=False, fb=False, harness=None)
     ev = {}          # eid -> record (ghost state of one fired workload event)
     order = []       # eids in fire order
@@ -113,17 +157,29 @@ def run_one(ctx):
     ncomp = ch.randint(1, 3, 'ncomp')
     vals = dict(n=0, falsy=[0, '', False, 0.0])
 
+    def scalar(kind):
+        vals['n'] += 1
+        return (100 + vals['n']) if kind == 0 else 'v%d' % vals['n']
+
     def new_value():
         if vals['falsy'] and ch.chance(1, 8, 'falsy'):
             return vals['falsy'].pop(0)
-        vals['n'] += 1
-        return (100 + vals['n']) if ch.draw(2, 'vtype') == 0 else 'v%d' % vals['n']
+        k = ch.weighted([5, 5, 2, 1, 1], 'vtype')      # int / str / flat list / empty list / nested list
+        if k < 2:
+            return scalar(k)
+        if k == 3:
+            return []
+        flat = [scalar(ch.draw(2, 'etype')) for _ in range(ch.randint(1, 3, 'list-len'))]
+        return flat if k == 2 else [flat, scalar(0)]
+
+    def nproductions(S):
+        return {'ret': 1, 'raise': 1, 'none': 0, 'nest': 1}.get(S['kind'], sum(1 for y in S['steps'] if y is not None) + (S['raise_at'] is not None) + (S['ret'] is not None))
 
     def describe(T, attrs):
         ctx.trace('type %s: success=%s failure=%s notify=%r success_channels=%r' % (
             T['name'], T['success'], T['failure'], attrs.get('notify', False), attrs.get('success_channels')))
         for S in T['hs']:
-            d = {'ret': 'return %r' % (S['val'],), 'none': 'return None', 'raise': 'raise Boom'}.get(S['kind'])
+            d = {'ret': 'return %r' % (S['val'],), 'none': 'return None', 'raise': 'raise Boom', 'nest': 'return self.fire(e%s())' % S['nest']}.get(S['kind'])
             if d is None:
                 d = 'generator: yields %r' % (S['steps'],) + (
                     ', raises at step %d' % S['raise_at'] if S['raise_at'] is not None else (', return %r' % (S['ret'],) if S['ret'] is not None else ''))
@@ -136,9 +192,12 @@ def run_one(ctx):
         T = dict(i=i, name='e%d' % i, success=bool(ch.draw(2, 'success')), failure=bool(ch.draw(2, 'failure')),
                  notify=ch.weighted([5, 2, 1], 'notify'), schan=ch.weighted([5, 2, 1], 'success-channels'), hs=[])
         for _ in range(ch.weighted([1, 3, 4, 3, 2, 1][:cfg['max_handlers'] + 1], 'nhandlers')):
-            kind = ch.weighted([4, 2, 3, 5], 'kind')      # return value / return None / raise / generator
-            S = dict(hid=len(specs) + 1, type=i, kind=('ret', 'none', 'raise', 'gen')[kind], prio=ch.choice(HPRIOS, 'hprio'),
-                     comp=ch.draw(ncomp, 'hcomp'), fires={}, steps=[], raise_at=None, ret=None, val=None)
+            # return value / return None / raise / generator / `return self.fire(<event of a higher type>)`
+            kind = ch.weighted([4, 2, 3, 5, 1] if i + 1 < ntypes else [4, 2, 3, 5], 'kind')
+            S = dict(hid=len(specs) + 1, type=i, kind=('ret', 'none', 'raise', 'gen', 'nest')[kind], prio=ch.choice(HPRIOS, 'hprio'),
+                     comp=ch.draw(ncomp, 'hcomp'), fires={}, steps=[], raise_at=None, ret=None, val=None, nest=None)
+            if S['kind'] == 'nest':
+                S['nest'] = ch.randint(i + 1, ntypes - 1, 'nest-type')
             if S['kind'] == 'ret':
                 S['val'] = new_value()
             elif S['kind'] == 'gen':
@@ -148,6 +207,8 @@ def run_one(ctx):
                     S['raise_at'] = ch.randint(0, k, 'raise-step')
                 elif ch.chance(1, 4, 'gen-returns'):
                     S['ret'] = new_value()
+                    if S['ret'] == []:
+                        S['ret'] = scalar(0)       # the only value that can occur twice; an OPTIONAL item must be identifiable
             if i + 1 < ntypes:
                 for _ in range(ch.weighted([6, 2, 1], 'nfires')):
                     S['fires'].setdefault(ch.randint(0, len(S['steps']), 'fire-step'), []).append(ch.randint(i + 1, ntypes - 1, 'fire-type'))
@@ -159,6 +220,19 @@ def run_one(ctx):
         if T['trigger'] and avoid_defect:
             T['success'] = False       # known finding KEY_DEFECT: do not build its trigger in this run
             T['trigger'] = False
+        if avoid_list and sum(nproductions(S) for S in T['hs']) > 1:
+            # known finding KEY_LIST: its trigger is a list result followed by another result of the same event; a type that can
+            # produce more than one result gets scalars only (the lone list result stays in the explored space)
+            for S in T['hs']:
+                S['val'], S['ret'] = (scalar(0) if isinstance(x, list) else x for x in (S['val'], S['ret']))
+                S['steps'] = [scalar(0) if isinstance(y, list) else y for y in S['steps']]
+        if avoid_nest and sum(nproductions(S) for S in T['hs']) > 1:
+            # known findings KEY_NEST_*: their trigger is a handler returning the Value of a nested fire next to another producing
+            # handler of the same event; such a handler still fires its event here but returns None
+            for S in T['hs']:
+                if S['kind'] == 'nest':
+                    S['kind'] = 'none'
+                    S['fires'].setdefault(0, []).append(S['nest'])
         attrs = {}
         if T['success']:
             attrs['success'] = True
@@ -194,8 +268,14 @@ def run_one(ctx):
         return rec
 
     def produce(rec, S, item, step):
+        if item[0] == 'V' and isinstance(item[1], list):
+            ctx.stat('list-result-yielded' if S['kind'] == 'gen' else 'list-result-returned')
+            if not item[1]:
+                ctx.stat('list-result-empty')
+            elif isinstance(item[1][0], list):
+                ctx.stat('list-result-nested')
         rec['prod'].append((item, S, step))
-        ctx.log('P', rec['eid'], S['hid'], step, item[0], repr(item[1]) if item[0] == 'V' else 'Boom')
+        ctx.log('P', rec['eid'], S['hid'], step, item[0], repr(item[1]) if item[0] == 'V' else 'Boom' if item[0] == 'X' else item[1]['eid'])
 
     def fault(rec, S, step):
         exc = (Abort if ctx.ch.draw(4, 'fault-class') == 3 else Boom)(S['hid'], rec['eid'])
@@ -246,8 +326,18 @@ def run_one(ctx):
                 produce(rec, S, ('V', S['val']), 0)
                 if not S['val']:
                     ctx.stat('falsy-result')
+            if S['kind'] == 'nest':
+                # the handler hands the future of the event it fired on as its own result
+                ctx.stat('nested-fire')
+                nrec = do_fire(self, S['nest'], 'h%d/e#%d, which returns the Value' % (S['hid'], rec['eid']))
+                finished(rec, S)
+                if nrec is None:
+                    return None
+                ctx.stat('nested-value-result')
+                produce(rec, S, ('N', nrec), 0)
+                return nrec['value']
             finished(rec, S)
-            return S['val']
+            return _fresh(S['val'])
         return h
 
     def make_gen(S):
@@ -283,12 +373,12 @@ def run_one(ctx):
                     produce(rec, S, ('V', y), step)
                     if not y:
                         ctx.stat('falsy-result')
-                yield y
+                yield _fresh(y)
             finished(rec, S)
             if S['ret'] is not None:
                 ctx.stat('generator-return-value')
                 rec['prod'].append((('R', S['ret']), S, k))     # optional: the statement only speaks of yielded values
-                return S['ret']
+                return _fresh(S['ret'])
         return g
 
     # ------------------------------------------------------------------ feedback observation
@@ -356,6 +446,9 @@ def run_one(ctx):
                          name, rec['eid'], ['h%d' % S['hid'] for S, _ in rec['raised']], rec['nfail']))
         elif kind == 'value_changed':
             ctx.stat('notify')
+
+    def raised_below(rec):
+        return bool(rec['raised']) or any(raised_below(item[1]) for item, _, _ in rec['prod'] if item[0] == 'N')
 
     def raise_shape(rec):
         if any(S['kind'] == 'gen' for S, _ in rec['raised']):
@@ -461,8 +554,12 @@ def run_one(ctx):
         hs = T['hs']
         raised = rec['raised']
         ngen = sum(1 for S in hs if S['kind'] == 'gen')
+        exp = rec['prod']
+        must = [n for n, (item, _, _) in enumerate(exp) if item[0] != 'R']            # the results the statement speaks of
+        lists = [n for n in must if exp[n][0][0] == 'V' and isinstance(exp[n][0][1], list)]
         ctx.state((len(hs) - ngen, ngen, sum(1 for S, _ in raised if S['kind'] != 'gen'), sum(1 for S, _ in raised if S['kind'] == 'gen'),
-                   T['success'], T['failure'], T['notify'], T['schan'], min(len(rec['prod']), 4)))
+                   T['success'], T['failure'], T['notify'], T['schan'], min(len(exp), 4), min(len(lists), 2), bool(lists and lists[0] == must[0]),
+                   min(sum(1 for n in must if exp[n][0][0] == 'N'), 2)))
         if rec['dispatched'] and (T['success'] or T['failure']):
             st['fb'] = True
         if len(raised) > 1:
@@ -491,42 +588,87 @@ def run_one(ctx):
         #     handler that raised"
         v = rec['value']
         obs = v.value
-        seq = list(obs) if isinstance(obs, list) else ([] if obs is None else [obs])
-        exp = rec['prod']
-        used = [False] * len(seq)
-        pos = []
-        for item, S, stepno in exp:
-            j = next((j for j, o in enumerate(seq) if not used[j] and _same(o, ('V', item[1]) if item[0] == 'R' else item)), None)
-            if j is None:
-                if item[0] == 'R':
-                    continue
-                what = ('error-triple-' + ('generator' if S['kind'] == 'gen' else 'plain')) if item[0] == 'X' else (
-                    ('generator-yield' if S['kind'] == 'gen' else 'plain-return') + ('' if item[1] else '-falsy'))
-                viol('C04/value/missing-result/' + what, 'e#%d: value %s lacks %s produced by h%d at step %d; produced in order: %s' % (
-                    eid, _show_seq(obs), _show(item[1]) if item[0] == 'V' else 'the error triple of %r' % (item[1],), S['hid'], stepno, _show_prod(exp)))
-                break
-            used[j] = True
-            pos.append(j)
-        if ctx.violations:
-            break
-        if not all(used):
-            j = used.index(False)
-            viol('C04/value/extra-result/' + ('none' if seq[j] is None else 'other'),
-                 'e#%d: value %s holds %s which no handler produced (or more often than produced); produced in order: %s' % (
-                     eid, _show_seq(obs), _show(seq[j]), _show_prod(exp)))
-            break
-        if pos != sorted(pos):
-            viol('C04/value/order', 'e#%d: value %s is not in production order %s' % (eid, _show_seq(obs), _show_prod(exp)))
-            break
-        if isinstance(obs, list) and len(obs) == 1:
-            viol('C04/value/single-as-list', 'e#%d: the single result is stored as a list: %s' % (eid, _show_seq(obs)))
+        if lists:
+            ctx.stat('list-result-single' if len(must) == 1 else 'list-result-first-of-several' if lists[0] == must[0] else 'list-result-after-other')
+            if any(n and exp[n - 1][0][0] == 'X' for n in lists):
+                ctx.stat('list-result-after-error-triple')
+
+        def match(o, item):
+            if item[0] == 'N':
+                # the Value of a nested fire as a result: the statement does not say how it is held - as the object or resolved
+                nv = item[1]['value']
+                return o is nv or (nv.value is not None and _eq(o, nv.value))
+            return _same(o, ('V', item[1]) if item[0] == 'R' else item)
+
+        def judge(seq, several, exp=exp):
+            """Judge the value under ONE reading (`seq` = the results it holds, in order); None or (key, detail)."""
+            used = [False] * len(seq)
+            pos = []
+            for n, (item, S, stepno) in enumerate(exp):
+                j = next((j for j, o in enumerate(seq) if not used[j] and match(o, item)), None)
+                if j is None:
+                    if item[0] == 'R' or (item[0] == 'N' and item[1]['value'].value is None):
+                        continue
+                    if any(exp[m][0][0] == 'N' for m in must if m >= n and m != must[-1]):
+                        # this result or a later one is the Value of a nested fire, and it was not the last result of the event
+                        return (KEY_NEST_LOST, 'e#%d: value %s lacks %s produced by h%d at step %d; a handler of the event returned the Value of '
+                                'a nested fire before the last result arrived; produced in order: %s' % (
+                                    eid, _show_seq(obs), _show_item(item), S['hid'], stepno, _show_prod(exp)))
+                    what = ('error-triple-' + ('generator' if S['kind'] == 'gen' else 'plain')) if item[0] == 'X' else 'nested-value' if item[0] == 'N' else (
+                        ('generator-yield' if S['kind'] == 'gen' else 'plain-return') + (
+                            '-list' if isinstance(item[1], list) else '' if item[1] else '-falsy'))
+                    return ('C04/value/missing-result/' + what, 'e#%d: value %s lacks %s produced by h%d at step %d; produced in order: %s' % (
+                        eid, _show_seq(obs), _show_item(item), S['hid'], stepno, _show_prod(exp)))
+                used[j] = True
+                pos.append(j)
+            if not all(used):
+                j = used.index(False)
+                return ('C04/value/extra-result/' + ('none' if seq[j] is None else 'other'),
+                        'e#%d: value %s holds %s which no handler produced (or more often than produced); produced in order: %s' % (
+                            eid, _show_seq(obs), _show(seq[j]), _show_prod(exp)))
+            if pos != sorted(pos):
+                return ('C04/value/order', 'e#%d: value %s is not in production order %s' % (eid, _show_seq(obs), _show_prod(exp)))
+            if several and len(seq) == 1:
+                return ('C04/value/single-as-list', 'e#%d: the single result is stored as a list: %s' % (eid, _show_seq(obs)))
+            return None
+
+        if isinstance(obs, list):
+            # a list is either the single result (a handler produced a list) or the list of the several results: the weaker demand
+            # is that ONE of the readings fits; the verdict reported is the one of the "several results" reading
+            bad = judge([obs], False) and judge(list(obs), True)
+            first = next((m for m in must if not (exp[m][0][0] == 'N' and exp[m][0][1]['value'].value is None)), None)
+            if bad and lists and lists[0] == first:
+                # naming the shape: the FIRST result is a list and the value is explained by "the later results were put INTO that
+                # list" (the log with that list replaced by its elements fits)
+                n = first
+                item, S, stepno = exp[n]
+                if judge(list(obs), False, exp[:n] + [(('V', x), S, stepno) for x in item[1]] + exp[n + 1:]) is None:
+                    bad = (KEY_LIST, 'e#%d: value %s holds the elements of the list %r (first result, from h%d at step %d) instead of the '
+                           'list itself; produced in order: %s' % (eid, _show_seq(obs), item[1], S['hid'], stepno, _show_prod(exp)))
+        else:
+            bad = judge([] if obs is None else [obs], False)
+        if bad:
+            viol(*bad)
             break
         ctx.stat('list-value' if isinstance(obs, list) else 'scalar-value')
         # --- "its errors flag is set iff some handler raised"
+        nests = [item[1] for item, _, _ in exp if item[0] == 'N']
+        if nests:
+            ctx.stat('nested-value-result-single' if len(must) == 1 else 'nested-value-result+more')
+            if raised:
+                ctx.stat('nested-value-result+raiser')
         if bool(v.errors) != bool(raised):
-            viol('C04/errors-flag/' + (('not-set/' + raise_shape(rec).split('+')[0]) if raised else 'set-without-raise'),
-                 'e#%d: errors=%r but %d handler(s) raised' % (eid, v.errors, len(raised)))
-            break
+            if raised and nests:
+                viol(KEY_NEST_ERRORS, 'e#%d: errors=%r but %d handler(s) raised (and handler(s) returned the Value of a nested fire: %s)' % (
+                    eid, v.errors, len(raised), _show_prod(exp)))
+                break
+            if not raised and any(raised_below(n) for n in nests):
+                # "some handler raised": a handler of the nested event whose Value this event holds did; either flag is accepted
+                ctx.stat('nested-value-result-raised-below')
+            else:
+                viol('C04/errors-flag/' + (('not-set/' + raise_shape(rec).split('+')[0]) if raised else 'set-without-raise'),
+                     'e#%d: errors=%r but %d handler(s) raised' % (eid, v.errors, len(raised)))
+                break
         # --- "produces exactly one `exception` event plus one `<name>_failure` event if the event requested failure feedback"
         lost = [(S, x) for S, x in raised if not any(y is x for y in rec['exc'])]
         if lost:
@@ -550,12 +692,14 @@ def run_one(ctx):
     ctx.nontrivial = bool(st['faults'] and st['susp'] and st['fb'])
 
 
+def _show_item(item):
+    return _show(item[1]) if item[0] == 'V' else 'the Value of e#%d' % item[1]['eid'] if item[0] == 'N' else 'the error triple of %r' % (item[1],)
+
+
 def _show_seq(obs):
-    if isinstance(obs, list):
-        return '[' + ', '.join(_show(o) for o in obs) + ']'
     return _show(obs)
 
 
 def _show_prod(exp):
-    return '[' + ', '.join(('h%d:' % S['hid']) + (repr(item[1]) if item[0] == 'V' else ('Boom' if item[0] == 'X' else '(return %r)' % (item[1],)))
+    return '[' + ', '.join(('h%d:' % S['hid']) + (repr(item[1]) if item[0] == 'V' else 'Boom' if item[0] == 'X' else '<Value of e#%d>' % item[1]['eid'] if item[0] == 'N' else '(return %r)' % (item[1],))
                            for item, S, _ in exp) + ']'
